@@ -29,7 +29,7 @@ META: Dict[str, Any] = {
     "pools": [{"backend": "c", "import_strict": True}, {"backend": "c", "import_strict": False},
               {"backend": "py", "import_strict": True}, {"backend": "py", "import_strict": False}],
     "tiers": {
-        "quick": {"runs": 8000, "chunk": 40, "wall": 75, "chunk_wall": 400},
+        "quick": {"runs": 5000, "chunk": 40, "wall": 75, "chunk_wall": 400},
         "thorough": {"runs": 120000, "chunk": 40, "wall": 1200, "chunk_wall": 900},
     },
     "selftest_runs": 4,
@@ -210,14 +210,21 @@ def worker_init() -> None:
     db = odxtools.load_pdx_file(p)
     for dl in db.diag_layers:
         layers[f"somersault:{dl.short_name}"] = dl
-    from ..zoo.layers import build_zoo_layer
+    from ..zoo.layers import MATRIX_KINDS, build_matrix_layer, build_zoo_layer
     for z in range(c05.N_ZOO):
         layer, truth, used = build_zoo_layer(z)
         layers[f"zoo:{z}"] = layer
+    for kind in MATRIX_KINDS:
+        layers[f"zoo:m_{kind}"] = build_matrix_layer(kind)
+    # a layer whose description violates the specification (illegal type/encoding combinations):
+    # strict mode reports these as errors, lenient mode downgrades them
+    STATE["bad_layer"] = build_matrix_layer("bad")
     c05.STATE["layers"] = layers
     c05.STATE["layer_names"] = sorted(layers)
     c05.STATE["zoo_truth"] = {}
     c05.build_corpus(ascii_tails=True)
+    layers = dict(layers)
+    layers["bad:0"] = STATE["bad_layer"]
     STATE["layers"] = layers
     STATE["layer_names"] = sorted(layers)
     with zipfile.ZipFile(p) as z:
@@ -243,6 +250,8 @@ def build_ops() -> None:
     ops: Dict[str, List[List[Any]]] = {}
     with W.quiet():
         for lname in STATE["layer_names"]:
+            if lname.startswith("bad:"):
+                continue
             layer = STATE["layers"][lname]
             r = random.Random(h64("c17ops", lname))
             lst: List[List[Any]] = []
@@ -325,6 +334,20 @@ def build_ops() -> None:
                 s = bytes([r.choice(alpha)]) + bytes(r.getrandbits(8) for _ in range(r.randint(0, 6)))
                 lst.append(["dec", lname, "L", s.hex(), None, None])
             ops[lname] = lst
+        # the spec-violating layer: operations are crafted, not decode-guided (strict mode rejects all)
+        layer = STATE["layers"]["bad:0"]
+        lst = []
+        for svc in layer.services:
+            for co, kind in [(svc.request, "rq")] + [(x, "rs") for x in svc.positive_responses]:
+                prefix = bytes(co.coded_const_prefix())
+                for tail in (b"", b"\x41\x42", b"\x12\x34\x41\x00", b"\xc3\x28\x00\x00\x00\x00\x00\x00\x00"):
+                    h = (prefix + tail).hex()
+                    lst.append(["dec", "bad:0", "C", h, None, [svc.short_name, co.short_name]])
+                    lst.append(["dec", "bad:0", "L", h, None, None])
+                for val in ("AB", 5, 1.5, b"\x01\x02"):
+                    kw = {p.short_name: val for p in co.parameters if getattr(p, "is_settable", False)}
+                    lst.append(["enc", "bad:0", svc.short_name, co.short_name, v2j(kw), None])
+        ops["bad:0"] = lst
     STATE["ops"] = ops
 
 
@@ -354,6 +377,16 @@ def gen(rs: int, index: int, tier: str) -> Dict[str, Any]:
             doc = rl.choice(sorted(STATE["odx_docs"]))
             op = ["load", "odx-mut", doc, rl.choice(["elem", "elem", "attr", "text"]), rl.randint(0, 100000)]
         ops.insert(rl.randint(0, len(ops)), op)
+    # the command line front end switches the mode for the duration of a tool run
+    rc = S.rng("cli")
+    for _ in range(weighted(rc, [0, 1, 2], [6, 3, 1])):
+        argv = rc.choice([
+            ["--no-strict", "list", "PDX"], ["list", "PDX"], ["--no-strict", "list", "/nonexistent/file.pdx"],
+            ["--no-strict", "snoop", "PDX", "--variant", "no_such_variant"], ["snoop", "PDX", "--variant", "no_such_variant"],
+            ["--no-strict", "find", "PDX", "-d", "1003"], ["--no-strict", "decode", "PDX", "-d", "zz"],
+            ["--no-strict", "compare", "PDX", "-v", "nonexistent_a", "nonexistent_b"],
+        ])
+        ops.insert(rc.randint(0, len(ops)), ["cli", argv])
     rf = S.rng("flips")
     flips: List[List[Any]] = []
     n_flips = rf.choice([0, 2, 5, 10, 30])
@@ -446,6 +479,19 @@ def run_op(op: List[Any]) -> Tuple[str, Any]:
                 db.add_xml_tree(root)
                 db.refresh()
             return "ok", db_summary(db)
+        if kind == "cli":
+            import odxtools.cli.main as cli_main
+            argv = ["odxtools"] + [STATE["pdx_path"] if a == "PDX" else a for a in op[1]]
+            old_argv = sys.argv
+            sys.argv = argv
+            try:
+                try:
+                    cli_main.start_cli()
+                    return "ok", "returned"
+                except SystemExit as e:
+                    return "ok", f"exit:{e.code if isinstance(e.code, int) or e.code is None else 'msg'}"
+            finally:
+                sys.argv = old_argv
         raise ValueError(kind)
     except HangVerdict:
         raise
@@ -529,6 +575,10 @@ def execute(trace: Dict[str, Any]) -> Dict[str, Any]:
                         mon.arm({})
                         o = run_op(op)
                         n_points = mon.disarm()
+                        if bool(exc_mod.strict_mode) != v:
+                            violations.append({
+                                "oracle": "C17.O5-operations-leave-the-switch-alone", "sig": {"kind": op[0]},
+                                "detail": {"op": op[:3], "flag_before": v, "flag_after": bool(exc_mod.strict_mode)}})
                         ref[k][v] = outcome_str(o)
                         cross[h64(k, v)] = h64(ref[k][v])
                         log.ev("app", "ref", {"op": op[:3], "v": v, "outcome": h64(ref[k][v])})
@@ -574,6 +624,12 @@ def execute(trace: Dict[str, Any]) -> Dict[str, Any]:
                     o = run_op(op)
                     mon.disarm()
                     fired = mon.flips_fired - before
+                    if fired == 0 and bool(exc_mod.strict_mode) != v0:
+                        # O5: the switch belongs to the controller; an operation must leave it alone
+                        violations.append({
+                            "oracle": "C17.O5-operations-leave-the-switch-alone", "sig": {"kind": op[0]},
+                            "detail": {"op": op[:3], "flag_before": v0, "flag_after": bool(exc_mod.strict_mode), "index": i}})
+                        exc_mod.strict_mode = v0
                     changed = fired > 0 and (bool(exc_mod.strict_mode) != v0 or len(mid) > 1)
                     if fired:
                         faults["flip_inside_operation"] = faults.get("flip_inside_operation", 0) + fired
